@@ -212,6 +212,18 @@ def svalJson : SVal → Json
 
 def attrsJson (a : Attrs) : Json := Json.arr (a.map (fun (k, v) => Json.arr #[Json.str k, svalJson v])).toArray
 
+def imageGroupJson (g : ImageGroup) : Json :=
+  Json.mkObj [("group", grpJson g.group),
+    ("array", Json.mkObj [("type_code", Json.str g.array.typeCode),
+      ("shape", Json.arr #[Json.str (toString g.array.shape.1), Json.str (toString g.array.shape.2)]),
+      ("dtype", Json.str g.array.dtype),
+      ("byte_ranges", Json.arr (g.array.byteRanges.map (fun (a, b) => Json.arr #[Json.str (toString a), Json.str (toString b)])).toArray),
+      ("rpc", toJson g.array.rpc)])]
+
+def summaryJson (gs : List (String × SGroup)) : Json :=
+  Json.arr (gs.map (fun (name, g) => Json.arr #[Json.str name,
+    Json.mkObj [("attrs", attrsJson g.attrs), ("groups", Json.arr (g.groups.map (fun (n, a) => Json.arr #[Json.str n, attrsJson a])).toArray)]])).toArray
+
 def layoutByName : String → Option Con
   | "recordPreamble" => some Gen.recordPreamble
   | "imageFileDescriptor" => some Gen.imageFileDescriptor
@@ -256,6 +268,19 @@ def step (j : Json) : Json :=
       match parse c [] (unhex (getStr j "data")) 0 with
       | .ok (v, pos) => Json.mkObj [("ok", valJson v), ("pos", toJson pos)]
       | .error e => Json.mkObj [("err", Json.str e.name)]
+  | "open_image" =>
+    match openImageFile (unhex (getStr j "file")) (getStr j "name") (getNat j "rpc") with
+    | .ok (name, g) => Json.mkObj [("ok", Json.mkObj [("name", Json.str name), ("image", imageGroupJson g)])]
+    | .error e => Json.mkObj [("err", Json.str e.name)]
+  | "open_product" =>
+    let files : Files := (getArr j "files").toList.map (fun f => match f with
+      | .arr xs => (((xs.getD 0 .null).getStr?).toOption.getD "", unhex (((xs.getD 1 .null).getStr?).toOption.getD ""))
+      | _ => ("", []))
+    match openProduct files (getNat j "rpc") with
+    | .ok p => Json.mkObj [("ok", Json.mkObj [("root_attrs", kvsJson p.rootAttrs), ("summary", summaryJson p.summary),
+        ("metadata", grpJson p.metadata),
+        ("imagery", Json.arr (p.imagery.map (fun (n, g) => Json.arr #[Json.str n, imageGroupJson g])).toArray)])]
+    | .error e => Json.mkObj [("err", Json.str e.name)]
   | "trailer" =>
     match readTrailer (unhex (getStr j "file")) with
     | .ok imgs => Json.mkObj [("ok", Json.arr (imgs.map (fun im => Json.arr (im.map (fun row => Json.arr (row.map (fun x => Json.str (toString x))).toArray)).toArray)).toArray)]
